@@ -39,6 +39,10 @@ def no_assets() -> Dict[str, Any]:
     return {"js": "", "css": "", "mjs": [], "mcss": [], "base": 0, "ext": True}
 
 
+FALSY_DEFAULTS = ["f:zero", "f:empty", "f:false", "f:dict", "f:list"]
+_FALSY = {"f:zero": 0, "f:empty": "", "f:false": False, "f:dict": {}, "f:list": []}
+
+
 def datadef(x, k, v="", a="", dflt="") -> Dict[str, Any]:
     return {"x": x, "k": k, "v": v, "a": a, "dflt": dflt}
 
@@ -102,6 +106,9 @@ class Gen:
                     if r.random() < 0.45:
                         kind = r.choice(["inject", "inject", "injkeys"])
                         dflt = r.choice(["", "", "dflt"])
+                        # falsy defaults are defaults too: inject(key, 0 / "" / False / {} / [])
+                        if kind == "inject" and dflt == "dflt" and r.random() < 0.5:
+                            dflt = r.choice(FALSY_DEFAULTS)
                         data.append(datadef("inj_" + key, kind, a=key, dflt=dflt))
             if self.elems:
                 data.append(datadef("cid", "id"))
@@ -421,7 +428,10 @@ def make_component(prog, idx: int, tag: str, log: Optional[list] = None, extra: 
             elif k == "kwarg":
                 d[e["x"]] = kwargs.get(e["a"], "")
             elif k == "inject":
-                d[e["x"]] = self.inject(e["a"], e["dflt"]) if e["dflt"] else self.inject(e["a"])
+                if e["dflt"].startswith("f:"):
+                    d[e["x"]] = self.inject(e["a"], _FALSY[e["dflt"]])
+                else:
+                    d[e["x"]] = self.inject(e["a"], e["dflt"]) if e["dflt"] else self.inject(e["a"])
             elif k == "injkeys":
                 v = self.inject(e["a"], e["dflt"]) if e["dflt"] else self.inject(e["a"])
                 d[e["x"]] = ",".join(v._fields) if hasattr(v, "_fields") else v
